@@ -22,6 +22,7 @@ static const char *BODYN[NBODIES] = { "P1 read/query/write/free", "P2 build/set/
 /* the harness calls this before any thread exists, when a P7 body takes part (the setter is documented as process-wide) */
 #define B_REQUIRE_PERMISSIONS() econf_requirePermissions(0444, 0005)
 
+static int body_lite;   /* shorter bodies (fewer scheduling points) so that a higher preemption bound can be completed */
 typedef struct { int body; int instance; char dir[300]; sbuf out; } tctx;
 /* per-instance parameters: shared static state inside the library only becomes visible when the threads pass different data */
 static const char *B_SFX[2] = { "conf", "cfg" };
@@ -47,6 +48,8 @@ static void body_prepare(tctx *t, int instance)
     sbuf c = {0};
     char d = B_DELIM[v][0], cc = B_COMM[v][0];
     sb_printf(&c, "%c about %s\nname%c\"Value Of %s\" %c trailing\nnum%c4%d\nflag%cYes\n[sec]\nmulti%cone\n  two %s\n\tthree\nempty%c\nlast%c%s-end\n", cc, tag, d, tag, cc, d, instance, d, d, tag, d, d, tag);
+    /* a physical line longer than the stdio buffer size, behind shorter ones: whatever the parser remembers about line lengths is per call */
+    if (!body_lite) { sb_printf(&c, "long%c", d); for (int i = 0; i < 9000 + 500 * (instance & 3); i++) sb_putc(&c, (char)('a' + (i + instance) % 26)); sb_printf(&c, "\nafterlong%c%s\n", d, tag); }
     b_mkfile(t->dir, "p1.conf", c.s); sb_free(&c);
   } else if (t->body == 2) {
     const char *nm = B_NAME[v], *sf = B_SFX[v];
@@ -94,7 +97,6 @@ static void body_prepare(tctx *t, int instance)
   }
 }
 
-static int body_lite;   /* shorter bodies (fewer scheduling points) so that a higher preemption bound can be completed */
 static void b_dump(tctx *t, econf_file *kf)
 {
   sbuf d = {0};
